@@ -34,4 +34,81 @@ def statement_terminates : Prop :=
 
 theorem C02_terminates : statement_terminates := Cspuz.Proofs.C02.terminates
 
+/-! ### non-vacuity -/
+
+/-- `b = BoolVar(); x = IntVar(0, 1); ensure(b | (x > 5)); add_answer_key(b, x)`:
+`b` is forced to True, `x` is free. -/
+def exState : SolverState :=
+  { decls := [.bool, .int 0 1], isKey := [true, true],
+    cs := [.node .or [.bvar 0, .node .gt [.ivar 1, .litI 5]]], sol := [none, none] }
+
+theorem exState_wt : ∀ c ∈ exState.cs, wtB c = true := by
+  intro c hc
+  simp only [exState, List.mem_cons, List.not_mem_nil, or_false] at hc
+  subst hc; decide
+
+theorem ex_respects (σ : Asg) (h : 0 ≤ σ.i 1 ∧ σ.i 1 ≤ 1) : σ.respects exState.decls := by
+  intro id lo hi hd
+  match id, hd with
+  | 1, hd =>
+    simp only [exState, List.getElem?_cons_succ, List.getElem?_cons_zero, Option.some.injEq,
+      VarDecl.int.injEq] at hd
+    obtain ⟨rfl, rfl⟩ := hd
+    exact h
+  | 0, hd => simp [exState] at hd
+  | n + 2, hd => simp [exState] at hd
+
+theorem ex_sat_iff (σ : Asg) : Sat exState.decls exState.cs σ ↔ σ.b 0 = true ∧ 0 ≤ σ.i 1 ∧ σ.i 1 ≤ 1 := by
+  constructor
+  · rintro ⟨hr, hc⟩
+    have hb := hr 1 0 1 rfl
+    have := hc _ (List.mem_singleton.2 rfl)
+    simp [Cspuz.Proofs.eval_node, evalOp, allInts, allBools, cmpOp] at this
+    refine ⟨?_, hb⟩
+    rcases this with h | h
+    · exact h
+    · omega
+  · rintro ⟨hb, hi⟩
+    refine ⟨ex_respects σ hi, ?_⟩
+    intro c hc
+    simp only [exState, List.mem_cons, List.not_mem_nil, or_false] at hc
+    subst hc
+    simp [Cspuz.Proofs.eval_node, evalOp, allInts, allBools, cmpOp, hb]
+
+theorem ex_common : CommonValue exState.decls exState.cs 0 (.b true) := by
+  intro σ hσ
+  have := ((ex_sat_iff σ).1 hσ).1
+  simp [valOf, exState, this]
+
+theorem ex_undetermined : Undetermined exState.decls exState.cs 1 := by
+  refine ⟨⟨fun _ => true, fun _ => 0⟩, ⟨fun _ => true, fun _ => 1⟩, ?_, ?_, ?_⟩
+  · exact (ex_sat_iff _).2 ⟨rfl, by decide, by decide⟩
+  · exact (ex_sat_iff _).2 ⟨rfl, by decide, by decide⟩
+  · simp [valOf, exState]
+
+/-- Hence, for every correct backend, `solve()` returns True, `b.sol = True` and `x.sol = None`. -/
+example (B : Backend) (hB : B.Correct) :
+    (solveRefine B exState).2 = .verdict true ∧
+    (solveRefine B exState).1.sol.getD 0 none = some (.b true) ∧
+    (solveRefine B exState).1.sol.getD 1 none = none := by
+  obtain ⟨_, h2, h3⟩ := C02_exact B hB exState exState_wt rfl
+  have hv : (solveRefine B exState).2 = .verdict true :=
+    h2.2 ⟨⟨fun _ => true, fun _ => 0⟩, (ex_sat_iff _).2 ⟨rfl, by decide, by decide⟩⟩
+  exact ⟨hv, ((h3 hv 0 (by decide) rfl).1 _).2 ex_common, (h3 hv 1 (by decide) rfl).2.2 ex_undetermined⟩
+
+/-- The termination statement applies to the first refuting round of that program. -/
+example (B : Backend) (hB : B.Correct) :
+    ∃ final, refineLoop B exState.decls exState.cs 3 [] [some (.b true), some (.i 0)] = .ok final := by
+  obtain ⟨final, h, _⟩ := C02_terminates B hB exState.decls exState.cs [some (.b true), some (.i 0)]
+    exState_wt rfl
+    (by
+      intro i a hi
+      refine ⟨⟨fun _ => true, fun _ => 0⟩, (ex_sat_iff _).2 ⟨rfl, by decide, by decide⟩, ?_⟩
+      match i, hi with
+      | 0, hi => simpa [valOf, exState] using hi
+      | 1, hi => simpa [valOf, exState] using hi
+      | n + 2, hi => simp at hi)
+    3 [] (by decide) (by simp)
+  exact ⟨final, h⟩
+
 end Cspuz.C02
